@@ -62,7 +62,7 @@ def serBlock (b : Nat × List (Option W)) : Text :=
 def lineTable (d : DebugSyms) : List (Nat × Option W) :=
   let base : List (Nat × Option W) := (List.range d.src.countLines).map (fun l => (l, none))
   d.lineMap.foldl (fun m b =>
-    (List.range b.2.length).zip b.2 |>.foldl (fun m p => insertSortedBy (b.1 + p.1) (some p.2) m) m) base
+    (List.range b.2.length).zip b.2 |>.foldl (fun m p => insertSortedBy ((b.1 + p.1) % 18446744073709551616) (some p.2) m) m) base
 
 def srcLine (d : DebugSyms) (line : Nat) : Text :=
   match d.src.rawLineSpan line with
